@@ -103,7 +103,8 @@ def generate(seed, tier):
             ops.append({"op": "sdd", "M": M, "nsym": rng.choice([1, 2, 3, 8]), "bseed": rng.getrandbits(32),
                         "shape": rng.choice(["nrz", "rz", "gaussian"]), "amp": rng.choice([0.0, 0.0, 0.1, 0.4, 0.8, 1.5]),
                         "nseed": rng.getrandbits(32), "form": rng.choice(["es_noise", "es", "arr", "list"]),
-                        "vout": rng.choice([1.0, 0.2, 5.0]), "bias": rng.choice([0.0, 0.0, 0.5, -1.0])})
+                        "vout": rng.choice([1.0, 0.2, 5.0]), "bias": rng.choice([0.0, 0.0, 0.5, -1.0]),
+                        "tie": rng.choice([None, None, None, "blank", "flat", "equal2"])})
         elif k == "gv":
             sps = rng.choice([2, 3, 4, 5, 8, 16, 32, 64])
             ops.append({"op": "gv", "kw": {"sps": sps, "R": rng.choice([1e9, 10e9])}})
@@ -387,6 +388,23 @@ class Link:
         noise = None
         if amp:
             noise = np.random.RandomState(op["nseed"]).uniform(-amp, amp, sig.size) * abs(op["vout"])
+        tie = op.get("tie")
+        if tie:
+            # exact ties for the symbol maximum (blank symbol, flat record, two equal pulses): the output must still
+            # be a valid codeword - which of the tied slots is raised is not asserted
+            noise = None
+            sig = sig.copy()
+            w_ = sig.reshape(nsym, M, sps)
+            if tie == "blank":
+                w_[op["bseed"] % nsym] = op["bias"]
+            elif tie == "flat":
+                w_[...] = op["bias"] + op["vout"]
+            else:
+                s_ = op["bseed"] % nsym
+                on = cw[s_ * M:(s_ + 1) * M].index(1)
+                w_[s_, (on + 1) % M] = w_[s_, on]
+            sig = w_.reshape(-1)
+            amp = 0.0
         total = sig if noise is None else sig + noise
         form = op["form"]
         if form == "es_noise" and noise is not None:
@@ -427,7 +445,9 @@ class Link:
                 raise Violation("C12/sdd", f"{what}: symbol {s}: slot {row.index(1)} turned ON but slot {a1} has the "
                                            f"largest integrated energy (sums {np.round(slot_sum[s], 3).tolist()!s:.120})",
                                 "sdd/argmax")
-        if not amp and got != cw:
+        if tie:
+            self.rec.probe("SDD frame with an exact tie")
+        if not amp and not tie and got != cw:
             raise Violation("C12/sdd", f"{what}: SDD is not the identity on a noiseless waveform: {cw} -> {got}",
                             "sdd/identity")
         if amp and amp < 0.45 and op["shape"] == "nrz" and got != cw:
